@@ -503,10 +503,75 @@ Proof.
   - eapply Hbody; try eassumption. eapply status_acceptable; eassumption.
 Qed.
 
+(** ** Replayed headers *)
+Lemma INV_jump_until ih ivs fuel : forall s r, INV ih ivs s -> INV ih ivs (jump_until fuel s r).
+Proof.
+  induction fuel as [|f IH]; intros s r H; cbn [jump_until]; [exact H|].
+  destruct (_ <? _); [apply IH, INV_jump, H|exact H].
+Qed.
+
+Lemma INV_handle_replay ih ivs s0 hd cp s' res :
+  INV ih ivs s0 -> hd_height hd + 1 < two64 ->
+  handle_replay s0 hd cp = Ok (s', res) -> INV ih ivs s'.
+Proof.
+  intros H0 Hb. unfold handle_replay.
+  destruct (negb (hd_height hd =? _)); [intros E; inversion E; subst; exact H0|].
+  destruct (cp_round cp <? _); [discriminate|].
+  pose proof (INV_jump_until ih ivs (N.to_nat (cp_round cp - v_r (k_vot s0))) s0 (cp_round cp) H0) as H.
+  set (s := jump_until _ s0 _) in *.
+  destruct ((v_r (k_vot s) =? cp_round cp) && (v_h (k_vot s) =? hd_height hd)) eqn:Hpos; cbn [negb]; [|discriminate].
+  apply andb_true_iff in Hpos as [Hr Hh]. apply N.eqb_eq in Hr, Hh.
+  assert (Hsame : forall r0, Ok (s, r0) = Ok (s', res) -> INV ih ivs s') by (intros r0 E; inversion E; subst; exact H).
+  destruct (hd_ok hd) eqn:Hok; cbn [negb]; [|apply Hsame].
+  destruct (negb (hd_height hd =? k_init_h s) && negb (bytes_eqb (hd_prev hd) (chdr_hash s))) eqn:Hprev; [apply Hsame|].
+  destruct (valset_equal (hd_vals hd) (v_vals (k_vot s)) && vs_ok (hd_vals hd)) eqn:Hveq; cbn [negb]; [|apply Hsame].
+  apply andb_true_iff in Hveq as [Hveq _]. destruct (valset_equal_keys _ _ Hveq) as [Hkeys Hpows].
+  destruct (vs_ok (hd_next hd)) eqn:Hnext; cbn [negb]; [|apply Hsame].
+  destruct (fold_left _ (cp_proofs cp) ([], true)) as [temp allv] eqn:Hf.
+  destruct (negb allv); [apply Hsame|].
+  fold (replay_insert s hd (cp_round cp)).
+  unfold bind at 1. destruct (replay_insert s hd (cp_round cp)) as [s1|] eqn:Hins; [|discriminate].
+  destruct H as (Hc&Ha&Hs&Hh').
+  pose proof (replay_checks_good _ _ _ _ (cp_round cp) Hc Hh Hok Hnext Hb Hprev) as Hgood.
+  destruct (cinv_replay_insert _ _ _ _ _ _ Hc Hgood Hins) as [Hc1 _].
+  destruct (auth_replay_insert _ _ _ _ Ha Hins) as (Ha1&E1&E2&E3&E4).
+  assert (S1 : sinv s1 /\ hinv ih ivs s1 /\ v_sum (k_vot s1) = v_sum (k_vot s)).
+  { revert Hins. unfold replay_insert.
+    destruct (existsb _ (v_phs _)); [intros E; inversion E; subst; split; [exact Hs|split; [exact Hh'|reflexivity]]|].
+    destruct (existsb _ (st_rounds s)); [discriminate|].
+    intros E; inversion E; subst. split; [exact Hs|split; [exact Hh'|reflexivity]]. }
+  destruct S1 as (Ss1&Sh1&Esum).
+  assert (I1 : INV ih ivs s1) by (split; [exact Hc1|]; split; [exact Ha1|]; split; assumption).
+  destruct (pm_get temp (hd_hash hd)); [|intros E; inversion E; subst; exact I1].
+  unfold bind at 1. destruct (byz_majority _); [|discriminate].
+  destruct (_ <? _); [intros E; inversion E; subst; exact I1|].
+  unfold bind. destruct (check_voting_precommit_shift _) as [s3|] eqn:Hcv; [|discriminate].
+  intros E; inversion E; subst.
+  eapply INV_check_voting; [|exact Hcv].
+  (* the state handed to the shift check: only the voting view's precommits and summary changed *)
+  assert (Htemp : auth_pmap (vs_keys (v_vals (k_vot s1))) KPrecommit (v_h (k_vot s1)) (v_r (k_vot s1)) temp).
+  { rewrite E1, E2, E3, Hr, Hh, <- Hkeys. eapply replay_temp_auth; [| |exact Hf].
+    - destruct Ha as (_&[_ Hvpc]&_). rewrite Hkeys, <- Hr, <- Hh. exact Hvpc.
+    - apply auth_pmap_nil. }
+  split.
+  { eapply cinv_frame; [|exact Hc1]. unfold frame_eq, pos_eq. cbn. repeat split. }
+  split.
+  { destruct Ha1 as (Hc1'&[Hv1 Hv2]&Hn1). unfold auth_state. split; [exact Hc1'|]. split; [|exact Hn1].
+    unfold auth_view, with_sum, with_pc. cbn. split; [exact Hv1|].
+    apply fold_pm_set_auth; [exact Hv2|exact Htemp]. }
+  split.
+  { destruct Ss1 as [[Sa Sp] Sn]. unfold sinv, sum_ok. cbn. split; [|exact Sn].
+    unfold sum_set_precommits. cbn.
+    destruct (set_powers (vs_pows (v_vals (k_vot s1)))
+                (fold_left (fun m e => pm_set m (fst e) (snd e)) temp (v_pc (k_vot s1)))) as [[t b] m] eqn:Esp.
+    cbn. split; [exact Sa|]. unfold blocks. rewrite Esp. reflexivity. }
+  exact Sh1.
+Qed.
+
 Lemma INV_step ih ivs s o s' res :
   INV ih ivs s -> op_bounded o -> step s o = Ok (s', res) -> INV ih ivs s'.
 Proof.
-  intros H Hb. destruct o as [p|m|m]; cbn [step].
+  intros H Hb. destruct o as [p|m|m|x cp]; cbn [step]; [| | |apply INV_handle_replay; assumption].
   - unfold handle_ph. destruct (ph_key p).
     + apply INV_handle_ph_loop; assumption.
     + intros E; inversion E; subst. exact H.
